@@ -110,6 +110,37 @@ macro_rules! kbloop {
 kbloop!(ScancodeSet2, 2, "set2");
 kbloop!(ScancodeSet1, 1, "set1");
 
+/// Like `KbLoop`, but every byte is preceded by a line glitch and the driver's timeout recovery on the same
+/// Keyboard: `clear(); add_bit(false); clear()`. For a correct Keyboard that is a no-op as far as scancode decoding
+/// is concerned (clear() resets only the bit framing), so the lock-step with R-AUTO must hold unchanged.
+#[derive(Clone, Debug, PartialEq)]
+pub struct KbNoisy<S: ScancodeSet>(pub Keyboard<Echo, S>);
+macro_rules! kbnoisy {
+    ($set:ty, $n:expr, $name:expr) => {
+        impl ByteDev for KbNoisy<$set> {
+            const SET: u8 = $n;
+            fn fresh() -> Self {
+                KbNoisy(Keyboard::new(<$set>::new(), Echo(0), HandleControl::MapLettersToUnicode))
+            }
+            fn feed(&mut self, b: u8) -> EvR {
+                self.0.clear();
+                let _ = self.0.add_bit(false);
+                self.0.clear();
+                let r = self.0.add_byte(b);
+                if let Ok(Some(ev)) = &r {
+                    let _ = self.0.process_keyevent(ev.clone());
+                }
+                r
+            }
+            fn component() -> String {
+                format!("kbnoisy:echo-0:{}:Map", $name)
+            }
+        }
+    };
+}
+kbnoisy!(ScancodeSet2, 2, "set2");
+kbnoisy!(ScancodeSet1, 1, "set1");
+
 /// feed under catch_unwind; a panic is rendered as a distinct result string
 pub fn feed_guarded<D: ByteDev>(d: &mut D, b: u8) -> Result<EvR, String> {
     catch_unwind(AssertUnwindSafe(|| d.feed(b))).map_err(crate::replay::panic_text)
@@ -607,6 +638,7 @@ pub fn c01(ctx: &mut Ctx) -> (u64, String) {
     lockstep_bfs::<ScancodeSet2>(ctx, "bfs:ScancodeSet2 x R-AUTO2");
     lockstep_bfs::<Keyboard<Echo, ScancodeSet2>>(ctx, "bfs:Keyboard::add_byte(Set2) x R-AUTO2");
     lockstep_bfs::<KbLoop<ScancodeSet2>>(ctx, "bfs:Keyboard add_byte+process_keyevent loop (Set2) x R-AUTO2");
+    lockstep_bfs::<KbNoisy<ScancodeSet2>>(ctx, "bfs:Keyboard loop with a glitch + clear() before every byte (Set2) x R-AUTO2");
     other_constructors_check::<ScancodeSet2>(ctx, "constructors");
     let depth = if ctx.thorough() { 4 } else { 3 };
     stream_tree::<ScancodeSet2>(ctx, "tree:ScancodeSet2", depth);
@@ -637,6 +669,7 @@ pub fn c02(ctx: &mut Ctx) -> (u64, String) {
     lockstep_bfs::<ScancodeSet1>(ctx, "bfs:ScancodeSet1 x R-AUTO1");
     lockstep_bfs::<Keyboard<Echo, ScancodeSet1>>(ctx, "bfs:Keyboard::add_byte(Set1) x R-AUTO1");
     lockstep_bfs::<KbLoop<ScancodeSet1>>(ctx, "bfs:Keyboard add_byte+process_keyevent loop (Set1) x R-AUTO1");
+    lockstep_bfs::<KbNoisy<ScancodeSet1>>(ctx, "bfs:Keyboard loop with a glitch + clear() before every byte (Set1) x R-AUTO1");
     other_constructors_check::<ScancodeSet1>(ctx, "constructors");
     let depth = if ctx.thorough() { 4 } else { 3 };
     stream_tree::<ScancodeSet1>(ctx, "tree:ScancodeSet1", depth);
